@@ -381,6 +381,27 @@ func snapBlob(doc *trustpolicy.BlobDocument) *trustpolicy.BlobDocument {
 // content) is handed in again instead of a fresh equal one
 var reuseInst bool
 
+// constructors family: which constructor of the verifier package builds the
+// verifier ("" = NewVerifierWithOptions with a trust store, "nilstore" =
+// NewVerifierWithOptions(nil, ..), "new" = the deprecated New, "withoptions" =
+// the deprecated NewWithOptions with ctorDecoy left in opts.OCITrustPolicy)
+var (
+	ctorKind  string
+	ctorDecoy *hDoc
+)
+
+func ctorTerm() string {
+	switch ctorKind {
+	case "nilstore":
+		return "CtorNilStore"
+	case "new":
+		return "CtorNew"
+	case "withoptions":
+		return "(CtorWithOptions " + docTerm(ctorDecoy) + ")"
+	}
+	return "CtorOptions"
+}
+
 func observe(kind string, d, other *hDoc, jsonRng *Rng) (c09Obs, string, []byte) {
 	var o c09Obs
 	frame := func(what string, same bool) {
@@ -482,7 +503,20 @@ func observe(kind string, d, other *hDoc, jsonRng *Rng) (c09Obs, string, []byte)
 	}
 	so, sb := snapOCI(opts.OCITrustPolicy), snapBlob(opts.BlobTrustPolicy)
 	o.New, p = guarded(func() error {
-		_, err := verifier.NewVerifierWithOptions(NewMockStore(), opts)
+		var err error
+		switch ctorKind {
+		case "nilstore":
+			_, err = verifier.NewVerifierWithOptions(nil, opts)
+		case "new":
+			// New has no parameter for a blob document
+			_, err = verifier.New(opts.OCITrustPolicy, NewMockStore(), nil)
+		case "withoptions":
+			// the OCI document is a parameter; the one left in the options must be ignored
+			o2 := verifier.VerifierOptions{OCITrustPolicy: toOCI(ctorDecoy), BlobTrustPolicy: opts.BlobTrustPolicy}
+			_, err = verifier.NewWithOptions(opts.OCITrustPolicy, NewMockStore(), nil, o2)
+		default:
+			_, err = verifier.NewVerifierWithOptions(NewMockStore(), opts)
+		}
 		return err
 	})
 	note(p)
@@ -1553,6 +1587,8 @@ type c09Case struct {
 	Doc    *hDoc    `json:"doc"`
 	Other  *hDoc    `json:"other"`
 	JSON   string   `json:"json_text"`
+	Ctor   string   `json:"constructor,omitempty"`
+	Decoy  *hDoc    `json:"decoy,omitempty"`
 	Obs    c09Obs   `json:"obs"`
 }
 
@@ -1576,7 +1612,7 @@ func runC09(a *Args) error {
 	rng := NewRng(a.Seed)
 	prelude := "From NV Require Import Base C09_Model.\nOpen Scope string_scope.\n"
 	w := NewCaseWriter(a, "C09", prelude, "case", "run")
-	w.Rule = "documents of both kinds drawn from a grammar of valid documents (1-3 statements; levels, legal overrides, verifyTimestamp, type:name stores, wildcard / x509.subject / foreign-prefix identities with varied DN spelling (S alias, spaces, ';', backslash and hex escapes), unique scopes, at most one non-skip global statement). Streams: (1) single-edit, systematic: 39 rule-violating and 10 benign operators x both kinds, three statements with the rule violated in the first / middle / last one, the odd element at the front / middle / end of its list, every item of the operator's pool, all ordered pairs for duplicates, narrower/broader/unrelated DN in every order; (2) history: ONE document instance per kind validated repeatedly while edited in place (valid, broken, repaired), in half of the histories the very same struct handed to two consecutive steps and to NewVerifierWithOptions; (3) grammar with 0, 1 or 2 random edits; (4) randomly assembled documents; (5) regex-roles: fresh strings on which the host and the repository expression disagree (upper case / port vs underscore) used in both roles, after an unobserved Validate or GetApplicableTrustPolicy over the same strings in the other role (both orders) and inside one document; (6) fixed regression documents (F1, F11, spec examples, nil). Each document is validated as a Go struct (nil or empty slices/maps at random), validated after decoding JSON text written with literal member names (optional members omitted / empty / null at random, duplicate members sometimes), handed to NewVerifierWithOptions (sometimes together with a document of the other kind), and for accepted documents GetVerificationLevel of every statement is recorded. Frame check on every case: the documents handed to Validate, GetVerificationLevel and NewVerifierWithOptions are deep-snapshotted before and compared after (a change is an implementation violation). non-trivial = at most two edits, or random stream with at most two bad picks; distinct = distinct (kind, document, other document)"
+	w.Rule = "documents of both kinds drawn from a grammar of valid documents (1-3 statements; levels, legal overrides, verifyTimestamp, type:name stores, wildcard / x509.subject / foreign-prefix identities with varied DN spelling (S alias, spaces, ';', backslash and hex escapes), unique scopes, at most one non-skip global statement). Streams: (1) single-edit, systematic: 39 rule-violating and 10 benign operators x both kinds, three statements with the rule violated in the first / middle / last one, the odd element at the front / middle / end of its list, every item of the operator's pool, all ordered pairs for duplicates, narrower/broader/unrelated DN in every order; (2) history: ONE document instance per kind validated repeatedly while edited in place (valid, broken, repaired), in half of the histories the very same struct handed to two consecutive steps and to NewVerifierWithOptions; (3) grammar with 0, 1 or 2 random edits; (4) randomly assembled documents; (5) regex-roles: fresh strings on which the host and the repository expression disagree (upper case / port vs underscore) used in both roles, after an unobserved Validate or GetApplicableTrustPolicy over the same strings in the other role (both orders) and inside one document; (6) fixed regression documents (F1, F11, spec examples, nil); (7) constructors: the document under test nil / valid / broken, next to a nil / valid / broken document of the other kind, handed to NewVerifierWithOptions with a nil trust store, to the deprecated New (no blob parameter) and to the deprecated NewWithOptions whose options already carry a nil / valid / broken decoy OCI document; (8) witnesses of the audit theorems (a scope listed twice by one statement, distinguished names lacking C / ST / O, one identity within another in both orders). Each document is validated as a Go struct (nil or empty slices/maps at random), validated after decoding JSON text written with literal member names (optional members omitted / empty / null at random, duplicate members sometimes), handed to NewVerifierWithOptions (sometimes together with a document of the other kind), and for accepted documents GetVerificationLevel of every statement is recorded. Frame check on every case: the documents handed to Validate, GetVerificationLevel and NewVerifierWithOptions are deep-snapshotted before and compared after (a change is an implementation violation). non-trivial = at most two edits, or random stream with at most two bad picks; distinct = distinct (kind, document, other document)"
 	w.Assumptions = []string{
 		"override maps have unique keys (Go map); identity strings are ASCII (limit of the byte-level model of go-ldap ParseDN, C04_DN); all strings are valid UTF-8 (JSON route)",
 		"error classes are recognised from stable phrases of the error texts; the four override-entry errors of GetVerificationLevel are one class (Go map iteration order)",
@@ -1606,13 +1642,28 @@ func runC09(a *Args) error {
 		normalise(okind, other)
 		jr := NewRng(a.Seed).Fork(uint64(my))
 		obs, obsTerm, text := observe(kind, d, other, jr)
-		c := &c09Case{Kind: kind, Stream: stream, Edits: edits, Doc: d, Other: other, JSON: string(text), Obs: obs}
+		if ctorKind == "withoptions" {
+			normalise("oci", ctorDecoy)
+			if !asciiIds(ctorDecoy) {
+				panic("c09: generator produced a non-ASCII identity")
+			}
+		}
+		c := &c09Case{Kind: kind, Stream: stream, Edits: edits, Doc: d, Other: other, JSON: string(text), Ctor: ctorKind, Obs: obs}
 		k := "OCI"
 		if kind == "blob" {
 			k = "Blob"
 		}
-		term := CApp("mk_case", CN(my), CApp("mk_input", k, docTerm(d), docTerm(other)), obsTerm)
+		in := CApp("mk_input", k, docTerm(d), docTerm(other))
 		kd, _ := json.Marshal([]any{kind, d, other})
+		if ctorKind != "" {
+			if ctorKind == "withoptions" {
+				c.Decoy = ctorDecoy
+			}
+			in = CApp("mk_input_c", k, docTerm(d), docTerm(other), ctorTerm())
+			kd, _ = json.Marshal([]any{kind, d, other, ctorKind, c.Decoy})
+			w.Count("constructor", ctorKind)
+		}
+		term := CApp("mk_case", CN(my), in, obsTerm)
 		w.Add(my, term, c, string(kd), nontrivial)
 		if obs.Panic != "" {
 			w.ImplViolation(my, "panic: "+obs.Panic, c, "panic")
@@ -1853,6 +1904,69 @@ func runC09(a *Args) error {
 			apply(okind, o, applicable(okind, edits))
 		}
 		emit(kind, "nil-with-other", nil, nil, o, true)
+	}
+	// 5. constructors (appended: earlier case ids are unchanged): every way of
+	// building a verifier from documents in memory must validate them. The
+	// document under test is valid / broken by one edit / nil, alone or next to a
+	// valid or broken document of the other kind; for NewWithOptions the options
+	// carry a decoy OCI document (nil / valid / broken) that must not count.
+	{
+		type cc struct {
+			ctor  string
+			decoy int // 0 nil, 1 valid, 2 broken
+		}
+		ctors := []cc{{"nilstore", 0}, {"new", 0}, {"withoptions", 0}, {"withoptions", 1}, {"withoptions", 2}}
+		reps := 1
+		if a.Tier == "thorough" {
+			reps = 12
+		}
+		mk := func(kind string, shape int) *hDoc {
+			switch shape {
+			case 0:
+				return nil
+			case 1:
+				return genValid(kind, rng)
+			}
+			d := genValid(kind, rng)
+			apply(kind, d, applicable(kind, edits))
+			return d
+		}
+		for r := 0; r < reps; r++ {
+			for _, c := range ctors {
+				for _, kind := range kinds {
+					okind := "oci"
+					if kind == "oci" {
+						okind = "blob"
+					}
+					for shape := 0; shape < 3; shape++ {
+						for oshape := 0; oshape < 3; oshape++ {
+							d, o := mk(kind, shape), mk(okind, oshape)
+							ctorKind, ctorDecoy = c.ctor, nil
+							if c.ctor == "withoptions" {
+								ctorDecoy = mk("oci", c.decoy)
+							}
+							emit(kind, "constructors", []string{c.ctor, fmt.Sprintf("doc%d-other%d-decoy%d", shape, oshape, c.decoy)}, d, o, true)
+							ctorKind, ctorDecoy = "", nil
+						}
+					}
+				}
+			}
+		}
+	}
+	// 6. witnesses of theorems of C09_Audit.v replayed on the real code: a scope
+	// listed twice by ONE statement (C09_scope_literal_refuted), an x509.subject
+	// identity that parses but lacks O / C / ST (C09_mandatory_required), an
+	// identity within another one in both orders (C09_overlap_rejected)
+	{
+		st := func(ids, scopes []string) *hDoc {
+			return &hDoc{"1.0", []hStmt{{Name: "a", SV: hSV{Level: "strict"}, Stores: []string{"ca:s"}, Ids: ids, Scopes: scopes}}}
+		}
+		emit("oci", "audit-witness", []string{"scope-twice-one-statement"}, st([]string{"*"}, []string{"a/b", "a/b"}), nil, true)
+		emit("oci", "audit-witness", []string{"dn-without-O"}, st([]string{"x509.subject:C=US,ST=WA"}, []string{"*"}), nil, true)
+		emit("blob", "audit-witness", []string{"dn-without-C"}, st([]string{"x509.subject:ST=WA,O=x"}, nil), nil, true)
+		emit("blob", "audit-witness", []string{"dn-without-ST"}, st([]string{"x509.subject:C=US,O=x"}, nil), nil, true)
+		emit("oci", "audit-witness", []string{"narrow-then-broad"}, st([]string{"x509.subject:C=US,ST=WA,O=x", "foo:bar", "x509.subject:O=x,CN=y,ST=WA,C=US"}, []string{"*"}), nil, true)
+		emit("oci", "audit-witness", []string{"broad-then-narrow"}, st([]string{"x509.subject:O=x,CN=y,ST=WA,C=US", "foo:bar", "x509.subject:C=US,ST=WA,O=x"}, []string{"*"}), nil, true)
 	}
 	w.Prelude = prelude + shortDefs()
 	return w.Close()
